@@ -1,5 +1,5 @@
 SPECIFICATION TSpec
 CONSTRAINT HW
-INVARIANTS Canonical BeliefSound AtMostOneHolder
+INVARIANTS Canonical BeliefSound AtMostOneHolder IdentDistinct
 POSTCONDITION Accepted
 CHECK_DEADLOCK FALSE
